@@ -63,9 +63,10 @@ theorem sg_flush (n : Nat) (c : Streaming) (chs : List (BDoc × List BDoc)) (p :
     · simp at hq; rw [hq]; exact hle
 
 /-- one `Add` of a document of the common schema -/
-theorem sg_add (n : Nat) (hn : 1 ≤ n) (c : Streaming) (chs : List (BDoc × List BDoc)) (cur : Option (BDoc × List BDoc))
+theorem sg_add' (n : Nat) (hn : 1 ≤ n) (c : Streaming) (chs : List (BDoc × List BDoc)) (cur : Option (BDoc × List BDoc))
     (d : BDoc) (g : SG n c chs cur) (hsim : ∀ p, cur = some p → SimDoc p.1 d) :
-    (c.add d).2 = .ok ∧ ∃ chs' cur', SG n (c.add d).1 chs' cur' ∧ allDocs chs' cur' = allDocs chs cur ++ [d] := by
+    (c.add d).2 = .ok ∧ ∃ chs' p', SG n (c.add d).1 chs' (some p') ∧
+      ((chs' = chs ∧ ∃ p, cur = some p ∧ p' = (p.1, p.2 ++ [d])) ∨ (chs' = chs ++ cur.toList ∧ p' = (d, []))) := by
   -- adding to a collector `c1` whose pending part is known
   have fresh : ∀ (c1 : Streaming) (chs1 : List (BDoc × List BDoc)), SG n c1 chs1 none →
       (let r := c1.inner.add d
@@ -82,7 +83,7 @@ theorem sg_add (n : Nat) (hn : 1 ≤ n) (c : Streaming) (chs : List (BDoc × Lis
     simp only [hnf, if_false, Bool.not_true, Bool.false_eq_true]
     obtain ⟨k1, k2⟩ := fresh c chs g
     simp only [k1, if_true]
-    exact ⟨trivial, chs, some (d, []), k2, by simp [allDocs, chunkDocs]⟩
+    exact ⟨trivial, chs, (d, []), k2, Or.inr ⟨by simp, rfl⟩⟩
   | some p =>
     obtain ⟨hh, hc, hle⟩ := g.pend
     by_cases hfull : c.count ≥ c.maxSamples
@@ -91,13 +92,27 @@ theorem sg_add (n : Nat) (hn : 1 ≤ n) (c : Streaming) (chs : List (BDoc × Lis
       simp only [f1, Bool.not_true, Bool.false_eq_true, if_false]
       obtain ⟨k1, k2⟩ := fresh (c.flush).1 (chs ++ [p]) f2
       simp only [k1, if_true]
-      exact ⟨trivial, chs ++ [p], some (d, []), k2, by simp [allDocs, chunkDocs]⟩
+      exact ⟨trivial, chs ++ [p], (d, []), k2, Or.inr ⟨by simp, rfl⟩⟩
     · simp only [hfull, if_false, Bool.not_true, Bool.false_eq_true]
       have hroom : p.2.length + 1 + 1 ≤ n := by rw [g.maxS] at hfull; omega
       obtain ⟨a1, a2⟩ := holds_step n p.1 p.2 c.inner d hh (by omega) (hsim p rfl)
       simp only [a1, if_true]
-      refine ⟨trivial, chs, some (p.1, p.2 ++ [d]), ⟨g.script, g.maxS, g.logged, ⟨a2, by simp [hc], by simp; omega⟩, g.small⟩, ?_⟩
-      simp [allDocs, chunkDocs]
+      exact ⟨trivial, chs, (p.1, p.2 ++ [d]), ⟨g.script, g.maxS, g.logged, ⟨a2, by simp [hc], by simp; omega⟩, g.small⟩,
+        Or.inl ⟨rfl, p, rfl, rfl⟩⟩
+
+theorem sg_add (n : Nat) (hn : 1 ≤ n) (c : Streaming) (chs : List (BDoc × List BDoc)) (cur : Option (BDoc × List BDoc))
+    (d : BDoc) (g : SG n c chs cur) (hsim : ∀ p, cur = some p → SimDoc p.1 d) :
+    (c.add d).2 = .ok ∧ ∃ chs' cur', SG n (c.add d).1 chs' cur' ∧ allDocs chs' cur' = allDocs chs cur ++ [d] := by
+  obtain ⟨hok, chs', p', g', hcase⟩ := sg_add' n hn c chs cur d g hsim
+  refine ⟨hok, chs', some p', g', ?_⟩
+  rcases hcase with ⟨rfl, p, rfl, rfl⟩ | ⟨rfl, rfl⟩
+  · simp [allDocs, chunkDocs]
+  · cases cur <;> simp [allDocs, chunkDocs]
+
+theorem sg_info (n : Nat) (c : Streaming) (chs : List (BDoc × List BDoc)) (p : BDoc × List BDoc)
+    (g : SG n c chs (some p)) : c.info.2 = p.2.length + 1 := by
+  obtain ⟨⟨h1, _, h3, _⟩, _, _⟩ := g.pend
+  simp [Streaming.info, Better.info, h1, h3]; omega
 
 /-- **every history**: documents of one schema, one after the other, into a fresh streaming
 collector — every `Add` is accepted, and the written chunks followed by the pending one are
